@@ -56,6 +56,7 @@ class FS:
         self.ops = []                  # (index, op, path, detail)
         self.writes = []               # (path, bytes) every completed write effect
         self.faults_fired = {}
+        self.fds = {}
         self.on_change = None          # hook(path) after every durable change
 
     # ---- helpers
@@ -232,6 +233,169 @@ class _WFile:
         return False
 
 
+# ---------------------------------------------------------------------- os-level API
+
+_real_os = {}
+_FD_BASE = 100000
+
+
+class _Fd:
+    def __init__(self, path, flags):
+        self.path = path
+        self.flags = flags
+        self.pos = 0
+
+
+def _os_open(path, flags, mode=0o777, *a, **kw):
+    if not _mine(path):
+        return _real_os["open"](path, flags, mode, *a, **kw)
+    fs = _FS
+    p = os.fspath(path)
+    writing = flags & (os.O_WRONLY | os.O_RDWR)
+    exists = p in fs.files
+    f = fs._op("open-w" if writing or flags & os.O_CREAT else "open-r", p,
+               "os.open flags=%#x" % flags)
+    if f == "eperm":
+        raise PermissionError(errno.EACCES, "Permission denied", p)
+    if f == "eio":
+        raise OSError(errno.EIO, "Input/output error", p)
+    if f == "enospc" and not exists:
+        raise OSError(errno.ENOSPC, "No space left on device", p)
+    if not exists:
+        if not flags & os.O_CREAT:
+            raise FileNotFoundError(errno.ENOENT, "No such file or directory", p)
+        fs.files[p] = b""
+        fs.writes.append((p, b""))
+        fs._changed(p)
+    elif flags & os.O_CREAT and flags & os.O_EXCL:
+        raise FileExistsError(errno.EEXIST, "File exists", p)
+    if exists and flags & os.O_TRUNC and writing:
+        fs.files[p] = b""
+        fs.writes.append((p, b""))
+        fs._changed(p)
+    fd = _FD_BASE + len(fs.fds)
+    fs.fds[fd] = _Fd(p, flags)
+    if flags & os.O_APPEND:
+        fs.fds[fd].pos = len(fs.files[p])
+    return fd
+
+
+def _fd_of(fd):
+    return _FS.fds.get(fd) if _FS is not None and isinstance(fd, int) and fd >= _FD_BASE else None
+
+
+def _os_write(fd, data):
+    h = _fd_of(fd)
+    if h is None:
+        return _real_os["write"](fd, data)
+    fs = _FS
+    data = bytes(data)
+    f = fs._op("write", h.path, len(data))
+    if isinstance(f, tuple) and f[0] == "short":
+        data = data[:f[1]]
+        if not data:
+            raise OSError(errno.ENOSPC, "No space left on device", h.path)
+    cur = fs.files.get(h.path, b"")
+    cur = cur[:h.pos].ljust(h.pos, b"\x00") + data + cur[h.pos + len(data):]
+    fs.files[h.path] = cur
+    h.pos += len(data)
+    fs.writes.append((h.path, data))
+    fs._changed(h.path)
+    return len(data)
+
+
+def _os_read(fd, n):
+    h = _fd_of(fd)
+    if h is None:
+        return _real_os["read"](fd, n)
+    f = _FS._op("read", h.path)
+    if f == "eio":
+        raise OSError(errno.EIO, "Input/output error", h.path)
+    out = _FS.files.get(h.path, b"")[h.pos:h.pos + n]
+    h.pos += len(out)
+    return out
+
+
+def _os_close(fd):
+    h = _fd_of(fd)
+    if h is None:
+        return _real_os["close"](fd)
+    f = _FS._op("close", h.path, 0)
+    del _FS.fds[fd]
+    if f == "eio":
+        raise OSError(errno.EIO, "Input/output error", h.path)
+
+
+def _os_fsync(fd):
+    h = _fd_of(fd)
+    if h is None:
+        return _real_os["fsync"](fd)
+    f = _FS._op("fsync", h.path)
+    if f == "eio":
+        raise OSError(errno.EIO, "Input/output error", h.path)
+
+
+def _os_rename(src, dst, *a, **kw):
+    if not (_mine(src) or _mine(dst)):
+        return _real_os["rename"](src, dst, *a, **kw)
+    fs = _FS
+    s_, d_ = os.fspath(src), os.fspath(dst)
+    f = fs._op("rename", d_, s_)
+    if f in ("eio", "eperm", "enospc"):
+        raise OSError(errno.EIO, "Input/output error", d_)
+    if s_ not in fs.files:
+        raise FileNotFoundError(errno.ENOENT, "No such file or directory", s_)
+    fs.files[d_] = fs.files.pop(s_)        # atomic replacement
+    fs.writes.append((d_, fs.files[d_]))
+    fs._changed(d_)
+    fs._changed(s_)
+
+
+def _os_remove(path, *a, **kw):
+    if not _mine(path):
+        return _real_os["remove"](path, *a, **kw)
+    fs = _FS
+    p = os.fspath(path)
+    f = fs._op("remove", p)
+    if f in ("eio", "eperm"):
+        raise PermissionError(errno.EACCES, "Permission denied", p)
+    if p not in fs.files:
+        raise FileNotFoundError(errno.ENOENT, "No such file or directory", p)
+    del fs.files[p]
+    fs._changed(p)
+
+
+def _os_stat(path, *a, **kw):
+    if isinstance(path, int) or not _mine(path):
+        return _real_os["stat"](path, *a, **kw)
+    p = os.fspath(path)
+    _FS._op("stat", p)
+    if p not in _FS.files:
+        raise FileNotFoundError(errno.ENOENT, "No such file or directory", p)
+    size = len(_FS.files[p])
+    return os.stat_result((0o100600, 0, 0, 1, 0, 0, size, 0, 0, 0))
+
+
+def _os_access(path, mode, *a, **kw):
+    if not _mine(path):
+        return _real_os["access"](path, mode, *a, **kw)
+    return os.fspath(path) in _FS.files or bool(mode & os.W_OK)
+
+
+def _os_chmod(path, mode, *a, **kw):
+    if not _mine(path):
+        return _real_os["chmod"](path, mode, *a, **kw)
+    return None
+
+
+def _getsize(path):
+    if _mine(path):
+        return _os_stat(path).st_size
+    return _real_getsize(path)
+
+
+_real_getsize = os.path.getsize
+
 # ---------------------------------------------------------------------- patches
 
 def _open(path, mode="r", *a, **kw):
@@ -279,3 +443,10 @@ def install():
     os.path.exists = _exists
     pathlib.Path.is_file = _path_is_file
     pathlib.Path.read_text = _path_read_text
+    for name, fn in (("open", _os_open), ("write", _os_write), ("read", _os_read),
+                     ("close", _os_close), ("fsync", _os_fsync), ("rename", _os_rename),
+                     ("replace", _os_rename), ("remove", _os_remove), ("unlink", _os_remove),
+                     ("stat", _os_stat), ("access", _os_access), ("chmod", _os_chmod)):
+        _real_os[name] = getattr(os, name)
+        setattr(os, name, fn)
+    os.path.getsize = _getsize
